@@ -263,7 +263,7 @@ func checkJSON(res *Result, doc string, ndocs int, cls map[string]bool) {
 func c02JSON(o Opts, rng *Rng, res *Result) error {
 	n := 1500
 	if o.Tier == "thorough" {
-		n = 120000
+		n = 250000
 	}
 	// boundary documents: every number spelling and every escape, alone and inside containers
 	var fixed []string
